@@ -247,3 +247,12 @@ func Scratch(prefix string) (string, error) {
 	}
 	return os.MkdirTemp(base, "verif-"+prefix+"-")
 }
+
+// ReadSig reads a signature the way callers do (source resumed at 0 first).
+func ReadSig(sig []byte) (*pwr.SignatureInfo, error) {
+	src := seeksource.FromBytes(sig)
+	if _, err := src.Resume(nil); err != nil {
+		return nil, err
+	}
+	return pwr.ReadSignature(context.Background(), src)
+}
